@@ -489,8 +489,16 @@ func findLookups(d Driver, atoms []core.Atom) []lookupInfo {
 // recvFieldsTouched returns the receiver fields a method tree reads/writes (first-level names).
 func recvFieldsTouched(p *core.Prog, roots ...*ssa.Function) (reads, writes map[string]bool) {
 	reads, writes = map[string]bool{}, map[string]bool{}
+	// only methods of the roots' own receiver type: field names of other types reached on the way (config objects, parsers) are not these fields
+	var owner types.Type
+	if len(roots) > 0 && roots[0] != nil && roots[0].Signature.Recv() != nil {
+		owner = roots[0].Signature.Recv().Type()
+	}
 	for _, f := range ModReach(p, roots...) {
 		if f.Signature.Recv() == nil || len(f.Params) == 0 {
+			continue
+		}
+		if owner != nil && !types.Identical(f.Signature.Recv().Type(), owner) {
 			continue
 		}
 		recv := f.Params[0]
